@@ -19,7 +19,7 @@ pub mod sync {
         use loom::sync::atomic::AtomicBool as LoomBool;
         use loom::sync::Arc;
         use std::collections::HashMap;
-        use std::sync::Mutex;
+        use loom::sync::Mutex;
 
         loom::lazy_static! {
             // one loom atomic per facade address, created on first use in each loom execution
